@@ -150,7 +150,9 @@ class World(object):
             p = pdu.UnnumberedInformation(addr, peer, b"uu")
         elif name == 'conn:i':
             ns = sock.recv_cnt if isinstance(sock, tco.DataLinkConnection) else 0
-            p = pdu.Information(addr, peer, ns, 0, self.sx.bytes("late", 2))
+            late = getattr(self, 'late', None)
+            p = pdu.Information(addr, peer, ns, 0, late if late is not None
+                                else self.sx.bytes("late", 2))
         elif name == 'conn:connect':
             p = pdu.Connect(addr, PEER + 1, 128, 1)
         elif name == 'conn:cc':
@@ -323,8 +325,16 @@ def describe(r):
     return r
 
 
-def ran_text(S):
-    return ",".join("%s@%s:%s" % (n, k, site) for n, k, site, i in S.ran) or "-"
+def window(S):
+    """where the last link step ran relative to the application call"""
+    if not S.ran:
+        return "-"
+    n, k, site, i = S.ran[-1]
+    if k == 'call':
+        return "before-call"
+    if k == 'after':
+        return "after-call"
+    return "%s:%s" % (k, site)
 
 
 def run_app(S, fn, what, failures=None):
@@ -363,6 +373,15 @@ def report(sx, failures):
         sx.check(False, sx.pick("report", uniq))
 
 
+def fail(sx, S, label):
+    """the application call under test did not end as the property demands"""
+    if label.startswith("link-thread-blocked"):
+        sx.reach("link-thread-blocked")
+        sx.check(False, label)
+    sx.reach("left-waiting" if label.startswith("left-waiting") else "failed")
+    sx.check(False, "%s:%s" % (label, window(S)))
+
+
 def link_rest(sx, S):
     """the link thread finishes its script while no application call runs"""
     try:
@@ -381,26 +400,34 @@ def reach_points(sx, S, what):
 # ----------------------------------------------------------------------------
 # one application call against the ending link
 # ----------------------------------------------------------------------------
-def call_vs_link(sx, state, script, role, fine=0):
+def pick_script(sx, scripts):
+    """scripts: [[role, [step, ...]], ...] -> role, steps"""
+    role, steps = sx.pick("script", scripts)
+    return role, list(steps)
+
+
+def call_vs_link(sx, state, scripts, fine=0):
     S = coop.SCHED
     S.fine = bool(fine)
     S.trace_files = TRACE_FILES
     kind = state.split(':')[0]
+    role, script = pick_script(sx, scripts)
     w = World(sx, role, sym_link_miu=(kind != 'dlc'))
     sock = w.setup(state)
     call = sx.pick("call", CALLS[kind])
-    what = "%s.%s" % (kind, call)
+    what = "%s/%s" % (state, call)
     S.steps = [(n, w.step(n, sock)) for n in script]
 
     def first():
         S.point('call', what)
         return w.call(call, sock, "m0")
     res = run_app(S, first, what)
-    reach_points(sx, S, what)
+    reach_points(sx, S, "%s.%s" % (kind, call))
     if res[0] == 'fail':
-        sx.reach("left-waiting" if res[1].startswith("left-waiting") else "failed")
-        sx.check(False, "%s:%s" % (res[1], ran_text(S)))
-    sx.reach("call:" + what)
+        fail(sx, S, res[1])
+    sx.reach("call:%s.%s" % (kind, call))
+    if S.waits and S.ran and res[0] in ('ret', 'err'):
+        sx.reach("woken-by-link-end")
     link_rest(sx, S)
     sx.check(w.L.link.SHUTDOWN, "link-not-shut-down-after-script")
     # every later call returns or raises Error without waiting
@@ -408,12 +435,12 @@ def call_vs_link(sx, state, script, role, fine=0):
     later = []
     for i, c in enumerate(LATER[kind]):
         r = run_app(S, lambda: w.call(c, sock, "l%d" % i),
-                    "later:%s.%s" % (kind, c), failures)
+                    "later:%s/%s" % (state, c), failures)
         later.append([c] + r)
-    report(sx, failures)
+    report(sx, [f + ":after-link-end" for f in failures])
     sx.reach("later-calls-done")
-    return dict(call=call, first=res, ran=S.ran, npoints=S.npoints,
-                waits=S.waits, later=later)
+    return dict(script=script, role=role, call=call, first=res, ran=S.ran,
+                npoints=S.npoints, waits=S.waits, later=later)
 
 
 # ----------------------------------------------------------------------------
@@ -422,11 +449,23 @@ def call_vs_link(sx, state, script, role, fine=0):
 SNEP_PUT = b"\xd0\x00\x00"          # one empty NDEF record
 
 
-def service(sx, server, body, queued, script, role, fine=0):
+def _ho_request():
+    r = real_ndef.HandoverRequestRecord('1.3', 0x1234)
+    r.add_alternative_carrier('active', 'c1')
+    c = real_ndef.Record('application/octet-stream', 'c1', b"0123456789")
+    return b"".join(real_ndef.message_encoder([r, c]))
+
+
+HO_REQUEST = _ho_request()
+
+
+def service(sx, server, body, queued, scripts, fine=0):
     S = coop.SCHED
     S.fine = bool(fine)
     S.trace_files = TRACE_FILES
+    role, script = pick_script(sx, scripts)
     w = World(sx, role)
+    w.late = None if server == 'snep' else HO_REQUEST[:7]
     L = w.L
     if server == 'snep':
         srv = nfc.snep.server.SnepServer(L)
@@ -464,7 +503,7 @@ def service(sx, server, body, queued, script, role, fine=0):
     res = run_app(S, first, what)
     reach_points(sx, S, what)
     if res[0] == 'fail':
-        sx.check(False, "%s:%s" % (res[1], ran_text(S)))
+        fail(sx, S, res[1])
     sx.check(res == ['ret', None], "service-body-ends-abnormally:" + what)
     sx.reach("service:" + what)
     link_rest(sx, S)
@@ -477,19 +516,9 @@ def service(sx, server, body, queued, script, role, fine=0):
         r = run_app(S, t.run, "spawned:%s.serve" % server, failures)
         spawned.append(r)
         sx.reach("spawned-thread-ran")
-    report(sx, failures)
-    return dict(first=res, ran=S.ran, npoints=S.npoints, waits=S.waits,
-                spawned=spawned)
-
-
-def _ho_request():
-    r = real_ndef.HandoverRequestRecord('1.3', 0x1234)
-    r.add_alternative_carrier('active', 'c1')
-    c = real_ndef.Record('application/octet-stream', 'c1', b"0123456789")
-    return b"".join(real_ndef.message_encoder([r, c]))
-
-
-HO_REQUEST = _ho_request()
+    report(sx, [f + ":after-link-end" for f in failures])
+    return dict(script=script, role=role, first=res, ran=S.ran,
+                npoints=S.npoints, waits=S.waits, spawned=spawned)
 
 
 # ----------------------------------------------------------------------------
@@ -501,6 +530,8 @@ STATES = ['raw:unbound', 'raw:bound', 'raw:data', 'raw:closed',
           'sd:fresh', 'sd:pending']
 ENDS = ['terminate', 'loop:local', 'loop:disrupt', 'loop:remote',
         'loop:ioerror', 'loop:timeout']
+# events of the conversation that precede the end of the link (second
+# preemption); all are delivered by an iteration of the real run loop
 CONN_EVENTS = {
     'dlc:listen': ['conn:connect', 'conn:disc'],
     'dlc:listen+conn': ['conn:connect'],
@@ -518,55 +549,56 @@ CONN_EVENTS = {
 }
 
 
+def default_role(e):
+    return 'ini' if e in ('terminate', 'loop:local') else 'tgt'
+
+
 def partitions(tier):
     parts = []
 
-    def add(fn, **kw):
-        name = "%s:%s" % (fn, ":".join(
-            "+".join(v) if isinstance(v, list) else str(v)
-            for k, v in kw.items()))
-        parts.append(dict(name=name, fn=fn, params=kw))
-    if tier == "quick":
-        for st in STATES:
-            for e in ENDS[:5]:
-                add("call_vs_link", state=st, script=[e],
-                    role='ini' if e in ('terminate', 'loop:local') else 'tgt')
-            for ev in CONN_EVENTS.get(st, []):
-                add("call_vs_link", state=st, script=[ev, 'loop:disrupt'],
-                    role='tgt')
-    else:
-        for st in STATES:
+    def add(fn, name, **kw):
+        parts.append(dict(name="%s:%s" % (fn, name), fn=fn, params=kw))
+    quick = tier == "quick"
+    for st in STATES:
+        if quick:
+            scripts = [[default_role(e), [e]] for e in ENDS[:5]]
+            scripts += [['tgt', [ev, 'loop:disrupt']]
+                        for ev in CONN_EVENTS.get(st, [])]
+            add("call_vs_link", st, state=st, scripts=scripts)
+        else:
             for role in ('ini', 'tgt'):
-                for e in ENDS:
-                    add("call_vs_link", state=st, script=[e], role=role)
-            for ev in CONN_EVENTS.get(st, []):
-                for e in ENDS[:4]:
-                    add("call_vs_link", state=st, script=[ev, e], role='tgt')
-                add("call_vs_link", state=st, script=[ev, 'terminate'],
-                    role='ini')
+                scripts = [[role, [e]] for e in ENDS]
+                add("call_vs_link", "%s:%s:1" % (st, role), state=st,
+                    scripts=scripts)
+                scripts = [[role, [ev, e]] for ev in CONN_EVENTS.get(st, [])
+                           for e in ENDS[:4]]
+                if scripts:
+                    add("call_vs_link", "%s:%s:2" % (st, role), state=st,
+                        scripts=scripts)
             # line granularity
-            for e in ('terminate', 'loop:remote'):
-                add("call_vs_link", state=st, script=[e], role='tgt', fine=1)
+            add("call_vs_link", "%s:fine" % st, state=st, fine=1,
+                scripts=[['ini', ['terminate']], ['tgt', ['loop:remote']]])
     for server in ('snep', 'handover'):
-        ends = ENDS[:5] if tier == "quick" else ENDS
-        for e in ends:
-            role = 'ini' if e in ('terminate', 'loop:local') else 'tgt'
-            for q in (0, 1):
-                add("service", server=server, body='listen', queued=q,
-                    script=[e], role=role)
-            add("service", server=server, body='listen', queued=0,
-                script=['conn:connect', e], role=role)
-            for q in (0, 1, 2):
-                add("service", server=server, body='serve', queued=q,
-                    script=[e], role=role)
-            add("service", server=server, body='serve', queued=0,
-                script=['conn:i', e], role=role)
-            add("service", server=server, body='serve', queued=1,
-                script=['conn:disc', e], role=role)
-        if tier != "quick":
+        ends = ENDS[:5] if quick else ENDS
+        one = [[default_role(e), [e]] for e in ends]
+        for q in (0, 1):
+            add("service", "%s:listen:%d" % (server, q), server=server,
+                body='listen', queued=q, scripts=one)
+        add("service", "%s:listen:0+connect" % server, server=server,
+            body='listen', queued=0,
+            scripts=[[r, ['conn:connect'] + e] for r, e in one])
+        for q in (0, 1, 2):
+            add("service", "%s:serve:%d" % (server, q), server=server,
+                body='serve', queued=q, scripts=one)
+        add("service", "%s:serve:0+i" % server, server=server, body='serve',
+            queued=0, scripts=[[r, ['conn:i'] + e] for r, e in one])
+        add("service", "%s:serve:1+disc" % server, server=server, body='serve',
+            queued=1, scripts=[[r, ['conn:disc'] + e] for r, e in one])
+        if not quick:
             for body, q in (('listen', 1), ('serve', 1), ('serve', 2)):
-                add("service", server=server, body=body, queued=q,
-                    script=['loop:disrupt'], role='tgt', fine=1)
+                add("service", "%s:%s:%d:fine" % (server, body, q),
+                    server=server, body=body, queued=q, fine=1,
+                    scripts=[['tgt', ['loop:disrupt']], ['ini', ['terminate']]])
     return parts
 
 
